@@ -2,6 +2,7 @@ package main
 
 import (
 	"strconv"
+	"strings"
 )
 
 func itoa(n int) string { return strconv.Itoa(n) }
@@ -260,5 +261,234 @@ func init() {
 		Assumptions: commonAssumptions,
 		Outside: []string{"expressions longer than the byte/token bounds (the property mentions 64 KiB)", "stack exhaustion on deeply nested input", "panics inside stubbed standard-library calls other than their documented ones", "time/memory beyond the per-loop budgets"},
 		Explain: "the implicit obligations of every harness: no panic site reachable (bounds, nil, type assertion, uncomparable ==, division, explicit panic) and no loop beyond its budget, over symbolic bytes, token sequences, integers and documents",
+	}
+}
+
+// frameJobs: families with their own array bound (functions 3, the rest 2).
+func frameJobs(prop string, tier string) []*Job {
+	keys := []string{"a", "b"}
+	js := evalJobs(prop, frameFuncTemplates(tier), 2, 3, 1, keys)
+	js = append(js, evalJobs(prop, frameOtherTemplates(tier), 2, 2, 1, keys)...)
+	return js
+}
+
+func frameFamilies(tier string) []tmpl {
+	return append(frameFuncTemplates(tier), frameOtherTemplates(tier)...)
+}
+
+func frameOtherTemplates(tier string) []tmpl {
+	var ts []tmpl
+	ts = append(ts, familyProj("quick")...)
+	ts = append(ts, familyCtx("quick")...)
+	core := familyCore("quick")
+	for i, t := range core {
+		if i%3 == 0 || tier == "thorough" {
+			ts = append(ts, t)
+		}
+	}
+	return dedupe(ts)
+}
+
+func frameFuncTemplates(tier string) []tmpl {
+	ts := familyFunc(tier)
+	// literals held by the expression, fed to reordering functions
+	lit := hLit(`[3,1,2]`)
+	ts = append(ts, call("sort_by", lit, ref(hCur())), call("sort", lit), call("reverse", lit), call("max_by", lit, ref(hCur())),
+		pipe(lit, hList(buildChain(hCur(), sIndex("0")), buildChain(hParen(call("sort_by", hCur(), ref(hCur()))), sIndex("0")))),
+		call("sort_by", hField("a"), ref(hField("b"))), call("to_array", hField("a")), call("merge", hField("a"), hField("b")),
+		buildChain(hField("a"), sFlat()), buildChain(hLit(`[[1],[2]]`), sFlat()), call("map", ref(hCur()), lit), call("not_null", hField("a"), lit))
+	return dedupe(ts)
+}
+
+func init() {
+	frameAssume := append(append([]string{}, commonAssumptions...), "document arrays carry one spare slot of capacity (as json.Unmarshal's do), so an append into the caller's backing array is a visible write")
+	specs["C06"] = &CheckSpec{Prop: "C06", Level: "model_checking", Frame: true,
+		Jobs: func(tier string) []*Job {
+			return frameJobs("C06", tier)
+		},
+		Bounds: func(tier string) map[string]interface{} {
+			return evalBounds(tier, "FUNC+PROJ+CTX+CORE/3+literal-reordering", len(frameFamilies(tier)), 2, 3, 1, []string{"a", "b"})
+		},
+		Assumptions: frameAssume,
+		Outside:     []string{"writes performed inside stubbed standard-library calls (sort.Stable is interpreted, so its swaps are seen)", "templates outside the families", "documents beyond the bounds"},
+		Explain:     "frame obligation: between the start and the end of Search no store, map update, in-place append or copy targets memory that existed before the call (success and error paths alike)",
+	}
+	specs["C12"] = &CheckSpec{Prop: "C12", Level: "other", Frame: true,
+		Jobs: func(tier string) []*Job {
+			var js []*Job
+			for wi, fam := range [][]tmpl{frameFuncTemplates(tier), frameOtherTemplates(tier)} {
+				for _, t := range fam {
+					j := jobOf("VerifCompiled", []string{"C12"}, "expr", t.text, "depth", "2")
+					j.W, j.S, j.Keys = 3-wi, 1, []string{"a", "b"}
+					j.Unwind = 64 + 4*len(t.text)
+					js = append(js, j)
+				}
+			}
+			one := frameJobs("C12", "quick")
+			for i, j := range one {
+				if i%4 == 0 || tier == "thorough" {
+					js = append(js, j)
+				}
+			}
+			return js
+		},
+		Bounds: func(tier string) map[string]interface{} {
+			return evalBounds(tier, "as C06, entered through (*JMESPath).Search on a compiled expression and through the one-shot Search", len(frameFamilies(tier)), 2, 3, 1, []string{"a", "b"})
+		},
+		Assumptions: append(append([]string{}, frameAssume...), "Go memory model: calls that only read shared locations and write only their own allocations have no conflicting accesses under any schedule (paper step of the reduction)", "stubbed standard-library functions are goroutine-safe"),
+		Outside:     []string{"interleavings are NOT enumerated: the property is reduced to the sequential frame obligation", "thread-safety of stubbed stdlib internals"},
+		Explain:     "C12 is decided through a reduction: the solver-checked premise is that during any Search call (compiled or one-shot) no store targets memory that existed before the call (the shared AST, the interpreter and its function table, package-level variables, the document); given that premise concurrent calls have no conflicting accesses and each call reads what it would read alone",
+	}
+	histT := func(tier string) []tmpl {
+		lit := hLit(`[3,1,2]`)
+		ts := []tmpl{pipe(lit, hList(buildChain(hCur(), sIndex("0")), buildChain(hParen(call("sort_by", hCur(), ref(hCur()))), sIndex("0")))),
+			call("sort_by", lit, ref(hCur())), call("sort_by", hField("a"), ref(hField("b"))), call("sort_by", hField("a"), ref(hCur())),
+			call("sort", hField("a")), call("reverse", hField("a")), buildChain(hField("a"), sFlat()), buildChain(hNone(), sVproj()),
+			call("keys", hCur()), call("values", hCur()), buildChain(hField("a"), sProj(), sField("b")), call("merge", hCur(), hLit(`{"a":1}`)),
+			call("to_array", hField("a")), buildChain(hField("a"), sSlice("_", "_", "-1")), hField("a"), call("abs", hField("a")),
+			hList(hField("a"), hLit("[1]")), call("max_by", hField("a"), ref(hField("b"))), call("map", ref(hField("a")), hCur()),
+			call("not_null", hField("a"), lit), tOr(hField("a"), lit), call("sort_by", call("to_array", hField("a")), ref(hCur()))}
+		if tier == "thorough" {
+			ts = append(ts, familyFunc("quick")...)
+			ts = append(ts, familyProj("quick")[:80]...)
+		}
+		return dedupe(ts)
+	}
+	specs["C13"] = &CheckSpec{Prop: "C13", Level: "model_checking", Frame: true,
+		Jobs: func(tier string) []*Job {
+			var js []*Job
+			for _, t := range histT(tier) {
+				j := jobOf("VerifHistory", []string{"C13"}, "expr", t.text, "depth", "2", "mode", itoa(t.mode))
+				j.W, j.S, j.Keys = 2, 1, []string{"a", "b"}
+				j.Unwind = 64 + 4*len(t.text)
+				js = append(js, j)
+				j2 := jobOf("VerifCompiled", []string{"C13"}, "expr", t.text, "depth", "2")
+				j2.W, j2.S, j2.Keys = 3, 1, []string{"a", "b"}
+				j2.Unwind = 64 + 4*len(t.text)
+				js = append(js, j2)
+			}
+			nmax := 2
+			if tier == "thorough" {
+				nmax = 3
+			}
+			for _, first := range []string{"a.b", "a[", "'unterminated", "\"", "a || ", "`[1,2]`", "foo(", "'it\\'s'", "a[0:1:2:3]"} {
+				for n := 0; n <= nmax; n++ {
+					j := jobOf("VerifParserReuse", []string{"C13"}, "first", first, "N", itoa(n))
+					j.Unwind = 64
+					js = append(js, j)
+				}
+			}
+			return js
+		},
+		Bounds: func(tier string) map[string]interface{} {
+			return map[string]interface{}{"history_templates": len(histT(tier)), "documents": "two independent lazy documents, depth 2, arrays <= 2", "parser_reuse": "first expression from 9 fixed texts (incl. failing ones), then arbitrary index/expression/tokens fields, second expression N <= 2/3 arbitrary bytes"}
+		},
+		Assumptions: commonAssumptions,
+		Outside:     []string{"histories longer than three searches (covered by the frame obligation: a search that writes nothing pre-existing cannot influence a later one)", "second expressions longer than N bytes"},
+		Explain:     "three-search histories on compiled expressions vs one-shot Search and a fresh Compile; frame obligation on the compiled AST; parser reuse from an arbitrary pre-state vs a fresh parser",
+	}
+}
+
+func init() {
+	pipeParts := func(tier string) ([]tmpl, []tmpl) {
+		as := []tmpl{hField("a"), hCur(), buildChain(hField("a"), sField("b")), buildChain(hField("a"), sProj(), sField("b")), buildChain(hNone(), sVproj()),
+			buildChain(hField("a"), sFlat()), hList(hField("a"), hField("b")), hHash("a", hField("b")), hLit(`[1,[2],{"a":3}]`), errCalls[2],
+			buildChain(hField("a"), sFilter(hField("b"))), tOr(hField("a"), hField("b")), buildChain(hNone(), sIndex("0")), call("to_array", hCur())}
+		bs := []tmpl{hField("a"), hCur(), buildChain(hNone(), sIndex("0")), buildChain(hNone(), sProj(), sField("a")), buildChain(hNone(), sFlat()),
+			buildChain(hNone(), sVproj()), hList(hCur(), hField("a")), call("type", hCur()), call("abs", hCur()), tNot(hCur()),
+			buildChain(hNone(), sFilter(hField("a"))), buildChain(hNone(), sSlice("1", "_", "_")), call("length", hCur()), tOr(hField("a"), hCur())}
+		if tier != "thorough" {
+			return as[:10], bs[:10]
+		}
+		return as, bs
+	}
+	substCtx := func() [][2]string {
+		// context text with %s for the hole
+		return [][2]string{{"[%s, a]", "list"}, {"{k: %s}", "hash"}, {"%s || a", "or-left"}, {"a || %s", "or-right"}, {"a && %s", "and-right"},
+			{"%s == a", "cmp"}, {"!%s", "not"}, {"%s | a", "pipe-left"}, {"type(%s)", "arg"}, {"(%s).a", "sub-left"}, {"(%s)[0]", "index-left"},
+			{"(%s)[*].a", "proj-left"}, {"not_null(a, %s)", "arg2"}, {"(%s)[]", "flat-left"}, {"(%s)[?a]", "filter-left"}}
+	}
+	substEs := func(tier string) []tmpl {
+		es := []tmpl{hField("a"), buildChain(hField("a"), sField("b")), buildChain(hField("a"), sIndex("0")), hList(hField("a"), hField("b")),
+			tOr(hField("a"), hField("b")), hLit("1"), call("type", hField("a")), buildChain(hField("a"), sProj(), sField("b")), hCur()}
+		if tier != "thorough" {
+			return es[:6]
+		}
+		return es
+	}
+	specs["C15"] = &CheckSpec{Prop: "C15", Level: "model_checking",
+		Jobs: func(tier string) []*Job {
+			var js []*Job
+			as, bs := pipeParts(tier)
+			for _, a := range as {
+				for _, b := range bs {
+					m := 0
+					if a.mode != 0 || b.mode != 0 {
+						m = 2
+					}
+					at := a.text
+					if a.prec != 0 && a.prec < precChain {
+						at = "(" + at + ")"
+					}
+					bt := b.text
+					if b.prec != 0 && b.prec < precChain {
+						bt = "(" + bt + ")"
+					}
+					j := jobOf("VerifPipeLaw", []string{"C15"}, "a", at, "b", bt, "mode", itoa(m), "depth", "2")
+					j.W, j.S, j.Keys = 2, 1, []string{"a", "b"}
+					j.Unwind = 64 + 4*(len(at)+len(bt))
+					j.WitEvery = 60
+					js = append(js, j)
+				}
+			}
+			hole := "`\"\\u0000HOLE\"`"
+			for _, c := range substCtx() {
+				for _, e := range substEs(tier) {
+					m := 0
+					if e.mode != 0 {
+						m = 2
+					}
+					et := e.text
+					if e.prec != 0 {
+						et = "(" + et + ")"
+					}
+					j := jobOf("VerifSubst", []string{"C15"}, "ctxe", strings.Replace(c[0], "%s", et, 1), "ctxh", strings.Replace(c[0], "%s", hole, 1), "e", e.text, "mode", itoa(m), "depth", "2")
+					j.W, j.S, j.Keys = 2, 1, []string{"a", "b"}
+					j.Unwind = 64 + 4*(len(c[0])+len(et)+20)
+					j.WitEvery = 60
+					js = append(js, j)
+				}
+			}
+			return js
+		},
+		Bounds: func(tier string) map[string]interface{} {
+			as, bs := pipeParts(tier)
+			return map[string]interface{}{"pipe_pairs": len(as) * len(bs), "substitution_contexts": len(substCtx()), "substituted_expressions": len(substEs(tier)), "document_depth": 2, "max_array_length": 2}
+		},
+		Assumptions: commonAssumptions,
+		Outside:     []string{"A, B, contexts outside the enumerated sets", "documents beyond the bounds", "pairs whose result order depends on object iteration: only error-ness is compared"},
+		Explain:     "both sides of each law are the real code on the same symbolic document: Search('A | B', d) vs Search(B, Search(A, d)); C[E] vs C with the literal of Search(E, d) patched into the parsed AST",
+	}
+	specs["C16"] = &CheckSpec{Prop: "C16", Level: "model_checking",
+		Jobs: func(tier string) []*Job {
+			keys := []string{"a", "b"}
+			js := evalJobs("C16", familyFunc(tier), 2, 3, 1, keys)
+			js = append(js, evalJobs("C16", familyProj("quick"), 2, 2, 1, keys)...)
+			js = append(js, evalJobs("C16", familyCore("quick"), 2, 2, 1, keys)...)
+			js = append(js, evalJobs("C16", familyBool("quick"), 2, 2, 1, keys)...)
+			for _, j := range js {
+				j.NumBound = 1e30
+				j.Props = []string{"C16"}
+			}
+			return js
+		},
+		Bounds: func(tier string) map[string]interface{} {
+			b := evalBounds(tier, "FUNC+PROJ+CORE+BOOL", len(familyFunc(tier))+len(familyProj("quick"))+len(familyCore("quick"))+len(familyBool("quick")), 2, 3, 1, []string{"a", "b"})
+			b["numbers_in_document"] = "finite float64 with |x| <= 1e30 (the property's 'moderate magnitude')"
+			return b
+		},
+		Assumptions: commonAssumptions,
+		Outside:     []string{"arithmetic over more than 3 numbers", "templates outside the families", "numbers above 1e30"},
+		Explain:     "every successful result is walked by the JSON invariant (null, bool, finite float64, string, non-nil []interface{}, non-nil map[string]interface{}, recursively); untouched lazy parts of the input satisfy it by assumption",
 	}
 }
